@@ -56,6 +56,13 @@ class Topo:
         them restart the scan after every unit, so a yielding poller can starve
         the other pools of its own scheduler for ever.  Safe cases: the two pools
         share no stream, or every stream serving p has only that pool."""
+        # a RANDWS scheduler steals from its secondary pools at the *tail* of a RANDWS
+        # pool, which is where a yielding poller has just been pushed: it can starve
+        # everything else in that pool
+        for x in self.consumers(p):
+            if self.xs[x]["sched"] == "randws" and len(self.xs[x]["pools"]) > 1 and \
+                    self.pools[p]["kind"] == "randws":
+                return False
         if p == target_pool:
             return True
         if self.pools[target_pool]["sub"] is not None:
